@@ -261,7 +261,7 @@ def on_output(p, r, exc, acc):
     acc.sample(cfg(m))
 
 
-MOD_ENCS = ["utf-8", "latin-1", "cp1251", "koi8-r", "ascii"]
+MOD_ENCS = ["utf-8", "latin-1", "cp1251", "koi8-r", "ascii", "utf-16"]
 MOD_STYLES = ["comment", "input_encoding", "both", "conflicting", "bom", "bom+comment", "bom+input_encoding", "bom+contradicting-comment"]
 
 
@@ -460,6 +460,9 @@ sys.exit(1 if bad else 0)
 
 
 def classify(c):
+    i = c.get("input") or {}
+    if c["kind"] == "module-file-roundtrip" and i.get("encoding") == "utf-16" and i.get("stage") in ("generate", "reload"):
+        return "C18-utf16-template-in-module-directory"
     return None
 
 
